@@ -442,7 +442,83 @@ def unpack_rule(ctx, R):
     return n
 
 
+def padding_rule(ctx, R):
+    """R16.4 (packing, one necessary clause only): a lane buffer that is pushed as a block inside the packing loop and
+    written PARTIALLY inside that loop (one lane at a time, or a sub-slice) is reset to all-zero inside the loop - or
+    lives only for one iteration, which in MIR is the same thing: its full initialisation lies in the loop.  A buffer
+    that is initialised once before the loop keeps the lanes of the previous block in the padding of a partial last
+    block.  Every full initialisation of such a buffer is a constant-zero array.  (Where the blocks are produced - the
+    n mod 8 arithmetic - is not decided.)"""
+    n = 0
+    bodies = [b for b in ctx.F.fn_bodies() if b.npath.endswith('FromVec>::from_vec') and 'f32x8' in b.locals[0]
+              and b.locals[1].replace(' ', '') in ('&std::vec::Vec<f32>', '&[f32]')]
+    if not bodies:
+        ctx.note(R, 'packing routine (FromVec<&Vec<f32>> for Feature) not found: padding clause not evaluated')
+        return 0
+    for b in bodies:
+        ctx.read(b)
+        loops = b.loops()
+        bufs = [l for l, t in enumerate(b.locals) if t.replace(' ', '').startswith('[f32;')]
+        for B in bufs:
+            full, partial, pushed = [], [], []
+            for i in sorted(b.live_blocks()):
+                for si, s_ in enumerate(b.blocks[i]['st']):
+                    if s_['k'] != 'assign':
+                        continue
+                    if s_['lhs']['l'] == B:
+                        (partial if s_['lhs']['p'] else full).append((i, s_))
+                    rv = s_['rv']
+                    if rv['k'] == 'ref' and rv.get('mut') and rv['pl']['l'] == B:
+                        # &mut B handed to a call: a sub-slice write (copy_from_slice on B[..n]) unless the whole array is
+                        # overwritten; treated as partial when an index / range projection call follows
+                        ref = s_['lhs']['l']
+                        for c in b.find_calls():
+                            if c.args and any(a.get('k') in ('copy', 'move') and a['pl']['l'] == ref for a in c.args):
+                                if c.name in ('index_mut', 'get_mut', 'split_at_mut', 'iter_mut', 'get_unchecked_mut'):
+                                    partial.append((c.bb, {'ln': c.ln}))
+            for c in b.find_calls():
+                if c.name in ('new', 'from', 'from_array', 'splat') and 'f32x8' in b.locals[c.dest['l']] and c.args:
+                    a = c.args[0]
+                    src = a['pl']['l'] if a.get('k') in ('copy', 'move') else None
+                    while src is not None and src != B:
+                        ds = [d for d in b.defs().get(src, []) if d[0] == 'assign' and d[3]['rv']['k'] == 'use'
+                              and d[3]['rv']['op'].get('k') in ('copy', 'move')]
+                        src = ds[0][3]['rv']['op']['pl']['l'] if len(ds) == 1 else None
+                    if src == B:
+                        pushed.append(c)
+            for h, blks in loops.items():
+                p_in = [x for x in pushed if x.bb in blks]
+                w_in = [x for x in partial if x[0] in blks]
+                if not p_in or not w_in:
+                    continue
+                # innermost loop only (a nested loop is judged on its own)
+                if any(h2 != h and h2 in blks and any(x.bb in loops[h2] for x in p_in) for h2 in loops):
+                    continue
+                f_in = [x for x in full if x[0] in blks]
+                n += 1
+                ctx.check(bool(f_in), R, b, 'lane-buffer-reset-inside-the-block-loop', '%d reset(s) in the loop' % len(f_in),
+                          'the lane buffer _%d is filled partially and pushed as a block inside the loop at bb%d but is never '
+                          're-initialised inside that loop: the padding lanes of a partial last block keep the values of '
+                          'the previous block instead of zeros' % (B, h), w_in[0][1].get('ln', ''))
+            for i, s_ in full:
+                rv = s_['rv']
+                zero = None
+                if rv['k'] == 'repeat':
+                    op = rv.get('op') or {}
+                    zero = op.get('k') == 'const' and str(op['c'].get('v')) in ('0.0', '0', '-0.0')
+                elif rv['k'] == 'agg' and rv.get('ak') == 'array':
+                    zero = all(o.get('k') == 'const' and str(o['c'].get('v')) in ('0.0', '0', '-0.0') for o in rv['ops'])
+                if zero is None or not pushed:
+                    continue
+                n += 1
+                ctx.check(zero, R, b, 'lane-buffer-initialised-to-zero', 'bb%d' % i,
+                          'the lane buffer is initialised with a non-zero constant: padding lanes are not zero', s_.get('ln', ''))
+    return n
+
+
 def run(ctx):
+    ctx.rule('R16.4', 'packing (one clause): a partially filled lane buffer is reset to zeros inside the block loop')
+    ctx.evaluated('R16.4', padding_rule(ctx, 'R16.4'), 3)
     ctx.rule('R16.1', 'Feature -> Vec<f32>: the 8 lanes of every block, in order, over the whole feature')
     ctx.floor('R16.1', unpack_rule(ctx, 'R16.1'), 3)
     ctx.rule('R16.2', 'euclidean = sqrt(sum over the common prefix of reduce_add((a_k - b_k)^2)), blocks paired by position')
